@@ -150,11 +150,11 @@ def daysInMonth (y m : Nat) : Nat :=
   if m = 2 then (if isLeap y then 29 else 28)
   else if m = 4 ∨ m = 6 ∨ m = 9 ∨ m = 11 then 30 else 31
 
-/-- days before the first of month `m` (1-based) -/
-def daysBeforeMonth (y : Nat) : Nat → Nat
-  | 0 => 0
-  | 1 => 0
-  | m + 1 => daysBeforeMonth y m + daysInMonth y m
+/-- days before the first of month `m` (1-based), as `datetime._days_before_month`: the table of a
+common year plus one after February of a leap year -/
+def daysBeforeMonth (y m : Nat) : Nat :=
+  [0, 31, 59, 90, 120, 151, 181, 212, 243, 273, 304, 334].getD (m - 1) 0
+    + (if 2 < m ∧ isLeap y then 1 else 0)
 
 /-- `timetuple().tm_yday` -/
 def dayOfYear (y m d : Nat) : Nat := daysBeforeMonth y m + d
